@@ -92,6 +92,6 @@ VARIANTS += [
          [(SLY, '        if token.value in (float("inf"), float("-inf")):\n', '        if token.value == float("inf"):\n')],
          ("*", "JaqalLexer.NUMBER:finite"), ("C01", "C16")),
     fire("r5-float-kind-without-payload-test",
-         [(PA, '                and isinstance(_constant_value(value), float)\n                and _constant_value(value).is_integer()\n', '                and getattr(_constant_value(value), "is_integer", lambda: True)()\n')],
+         [(PA, '                and isinstance(_constant_value(value), Real)\n                and _constant_value(value).is_integer()\n', '                and getattr(_constant_value(value), "is_integer", lambda: True)()\n')],
          ("C18.4", "Parameter.validate:float-kind-needs-float-payload"), ("C18",)),
 ]
